@@ -130,6 +130,14 @@ def frame_obligations(eng, con, c0, s1, entry_heap, normal):
             for k in HEAP_SORTS:
                 if k == key or k.startswith(key + ".") or k == key + "?":
                     allowed[k] = ownersf(c0) if ownersf else None
+    def same(k, new, old, r):
+        """list contents are compared on [0, len) only (cells beyond the length are not part of the list)."""
+        if k.endswith(".at") and (k[:-3] + ".len") in HEAP_SORTS:
+            i = fresh("i", I)
+            n_old = z3.Select(entry_heap.get(k[:-3] + ".len"), r)
+            return z3.Implies(z3.And(0 <= i, i < n_old), z3.Select(z3.Select(new, r), i) == z3.Select(z3.Select(old, r), i))
+        return z3.Select(new, r) == z3.Select(old, r)
+
     for k in HEAP_SORTS:
         if k == "$alloc":
             continue
@@ -142,10 +150,10 @@ def frame_obligations(eng, con, c0, s1, entry_heap, normal):
             if owners is None:
                 continue
             r = fresh("r", Ref)
-            eng.oblige(s1, f"{label}.{k}", z3.Implies(z3.And(z3.Select(entry_heap.get("$alloc"), r), *[r != o for o in owners]), z3.Select(new, r) == z3.Select(old, r)), "frame")
+            eng.oblige(s1, f"{label}.{k}", z3.Implies(z3.And(z3.Select(entry_heap.get("$alloc"), r), *[r != o for o in owners]), same(k, new, old, r)), "frame")
         else:
             r = fresh("r", Ref)
-            eng.oblige(s1, f"{label}.{k}", z3.Implies(z3.Select(entry_heap.get("$alloc"), r), z3.Select(new, r) == z3.Select(old, r)), "frame")
+            eng.oblige(s1, f"{label}.{k}", z3.Implies(z3.Select(entry_heap.get("$alloc"), r), same(k, new, old, r)), "frame")
 
 
 # --------------------------------------------------------------------------
